@@ -89,6 +89,13 @@ class Facts(Walker):
                 continue
             elif k.startswith(("v:", "s:")) and isinstance(a, str) and isinstance(b, str):
                 out[k] = _phi(a, b)
+        # shadow attribute of an ndarray-subclass local that is out of date on one side only: it may be stale after the join
+        for k in (set(s1) | set(s2)):
+            if k.startswith("stale:"):
+                nm = "v:" + k[6:]
+                a, b = s1.get(k, s1.get(nm)), s2.get(k, s2.get(nm))
+                if isinstance(a, str) and isinstance(b, str):
+                    out[k] = a if a == b else _phi(a, b)
         out["C"] = s1.get("C", frozenset()) | s2.get("C", frozenset())
         # a join of a complex-tainted value with anything is (may be) complex
         for k, v in list(out.items()):
@@ -215,13 +222,17 @@ class Facts(Walker):
             return "np.%s(%s)" % (npn, ",".join(self.vn(a, st) for a in args if not isinstance(a, ast.Starred)))
         if isinstance(f, ast.Attribute):
             base = self.vn(f.value, st)
+            if f.attr in self.SHADOW_READERS and isinstance(f.value, ast.Name) and ("stale:" + f.value.id) in st:
+                return st["stale:" + f.value.id]      # the accessor returns the out-of-date shadow, not the object's value
             if f.attr in VALUE_PRESERVING_METHODS:
                 return base
             return "%s.%s(%s)" % (base, f.attr, ",".join(self.vn(a, st) for a in args if not isinstance(a, ast.Starred)))
         if isinstance(f, ast.Name):
             if f.id in ("float", "abs") and args:
                 return self.vn(args[0], st) if f.id == "float" else "abs(%s)" % self.vn(args[0], st)
-            return "%s(%s)" % (f.id, ",".join(self.vn(a.value if isinstance(a, ast.Starred) else a, st) for a in args))
+            parts = [self.vn(a.value if isinstance(a, ast.Starred) else a, st) for a in args]
+            parts += ["%s=%s" % (k.arg, self.vn(k.value, st)) for k in node.keywords if k.arg]
+            return "%s(%s)" % (f.id, ",".join(parts))
         return self.fresh("call", node)
 
     # ---- facts helpers
@@ -356,6 +367,10 @@ class Facts(Walker):
     def bind(self, t, value_node, val, st, stmt):
         if isinstance(t, ast.Name):
             st.pop("b:" + t.id, None)
+            stale = self.stale_origin(value_node, st)
+            st.pop("stale:" + t.id, None)
+            if stale is not None:
+                st["stale:" + t.id] = stale
             if isinstance(value_node, (ast.Compare, ast.BoolOp)) or (isinstance(value_node, ast.UnaryOp) and isinstance(value_node.op, ast.Not)) \
                     or (isinstance(value_node, ast.Call) and (self.np_name(value_node.func) or "") in ("isclose", "allclose")):
                 st["b:" + t.id] = (value_node, self.vn(value_node, st))
@@ -405,6 +420,25 @@ class Facts(Walker):
                 w = self.cb.get("self_write")
                 if w:
                     w(self, base.attr, stmt, st)
+
+    SHADOW_READERS = {"to_array"}       # methods that return the shadow attribute itself
+
+    def stale_origin(self, value_node, st):
+        """``x <op> y`` on a local of an ndarray subclass whose class does not overload <op>: NumPy builds the result and
+        __array_finalize__ copies the shadow attributes (e.g. Quaternion.A) from the *operand*, so they describe x, not the result"""
+        if not (isinstance(value_node, ast.BinOp) and isinstance(value_node.left, ast.Name)):
+            return None
+        c = self.local_types.get(value_node.left.id)
+        if c is None or not any(ast.unparse(b).split(".")[-1] == "ndarray" for b in c.node.bases):
+            return None
+        fin = c.lookup("__array_finalize__")
+        if fin is None or not any(isinstance(x, ast.Call) and ast.unparse(x.func) == "getattr" for x in ast.walk(fin.node)):
+            return None
+        dunder = {"Div": "__truediv__", "Mult": "__mul__", "Add": "__add__", "Sub": "__sub__", "MatMult": "__matmul__", "Pow": "__pow__",
+                  "FloorDiv": "__floordiv__", "Mod": "__mod__"}.get(type(value_node.op).__name__)
+        if dunder is None or c.lookup(dunder) is not None:
+            return None
+        return st.get("stale:" + value_node.left.id, self.vn(value_node.left, st))
 
     def s_AugAssign(self, s, st):
         self.expr(s.value, st)
@@ -499,6 +533,8 @@ class Facts(Walker):
                 if isinstance(recv, ast.Call):
                     rr = self._resolve(recv.func)
                     c = rr if isinstance(rr, Class) else c
+                if f.attr in self.SHADOW_READERS and isinstance(recv, ast.Name) and ("stale:" + recv.id) in st:
+                    return self.has(st, "UNIT", st["stale:" + recv.id])    # what the accessor returns is the out-of-date shadow
                 if f.attr in VALUE_PRESERVING_METHODS:
                     return self.is_unit(recv, st, depth + 1)
                 if isinstance(recv, ast.Name) and recv.id == self.self_name and self.func.cls is not None:
